@@ -90,14 +90,22 @@ pub fn yield_point(site: u16) {
     if !baton() {
         return;
     }
+    if std::thread::panicking() {
+        // unwinding (e.g. out of a no-progress panic): never schedule or panic from destructors
+        return;
+    }
     crate::heap::harness(|| {
-        let n = CALL_YIELDS.with(|c| {
-            let v = c.get() + 1;
-            c.set(v);
-            v
-        });
-        if n > CALL_YIELD_CAP {
-            std::panic::panic_any(NoProgress);
+        // bounded liveness applies to the lock-free cache operations only (sites 0..31): a DOM call
+        // legitimately passes one yield point per node it clones or drops
+        if site < 32 {
+            let n = CALL_YIELDS.with(|c| {
+                let v = c.get() + 1;
+                c.set(v);
+                v
+            });
+            if n > CALL_YIELD_CAP {
+                std::panic::panic_any(NoProgress);
+            }
         }
         let Some(sh) = shared() else { return };
         let mut st = sh.m.lock().unwrap_or_else(|e| e.into_inner());
